@@ -211,7 +211,9 @@ def main(tier_: str) -> int:
             pv = [f'start={s}&{o}&patch=1' for s in ('2024-02-29T23:50:00Z', 'epoch', 'today', '2024-02-29T23:50:00.500Z', '2024-02-29T22:10:07.250Z',
                                                               '2024-02-29T20:20:00-03:30', '2024-03-01T05:20:00%2B05:30')
                   for o in ('depth=30', 'depth=20&mup=4', 'depth=45&drm=all')]
-            for qs in (pv if tier_ == 'thorough' else rng.sample(pv[:9], 3) + rng.sample(pv[9:15], 2) + rng.sample(pv[15:], 2)):
+            # the manifest reload counter a player sends when it follows the MPD's own <Location> (update=<n>)
+            pv_upd = ['start=2024-02-29T23:50:00Z&depth=30&patch=1&update=1', 'start=epoch&depth=20&mup=4&patch=1&update=7']
+            for qs in (pv + pv_upd if tier_ == 'thorough' else rng.sample(pv[:9], 3) + rng.sample(pv[9:15], 2) + rng.sample(pv[15:], 2) + pv_upd[:1]):
                 for ds in (rng.sample(dsecs, 6) if tier_ == 'quick' else dsecs):
                     t1 = base + datetime.timedelta(seconds=rng.choice([0, 0.25, 2.0, 3.5, 180.75]))
                     t2 = t1 + datetime.timedelta(seconds=ds)
